@@ -5,7 +5,7 @@ KEYWORDS = set("""ACCESS AND APPEND AS BASE BEEP CALL CASE CLOSE CLS COLOR CONST
 DEFSNG DEFSTR DIM DO DOUBLE ELSE ELSEIF END ENVIRON EQV ERROR EXIT FIELD FOR FUNCTION GET GOSUB GOTO IF IMP INPUT
 INTEGER IS KILL LBOUND LET LINE LOCATE LONG LOOP LPRINT LSET MOD NAME NEXT NOT ON OPEN OPTION OR OUTPUT POKE PRINT
 PUT RANDOM READ REDIM REM RESUME RETURN SEG SELECT SHARED SINGLE STATIC STEP STOP STRING SUB SYSTEM THEN TO TYPE
-UBOUND UNTIL USING VIEW WEND WHILE WIDTH XOR LEN""".split())
+UBOUND UNTIL USING VIEW WEND WHILE WIDTH XOR LEN SCREEN ABSOLUTE BINARY LOCK UNLOCK READ WRITE""".split())
 
 BUILTIN_FUNCS = set("""CHR$ CVD ENVIRON$ EOF ERR INKEY$ INSTR LBOUND LCASE$ LEFT$ LEN LTRIM$ MID$ MKD$ PEEK RIGHT$
 RTRIM$ SPACE$ STR$ STRING$ UBOUND UCASE$ VAL VARPTR VARSEG""".split())
